@@ -4,6 +4,7 @@ C06 for the sparse matricized tensor: `copy` / `+M` / `-M`, `__setitem__`, `doub
 stored order of the receiver (models: Ops/SptenmatOps).
 -/
 import PyttbModel.Lemmas.SparseOrderIndex
+import PyttbModel.Lemmas.MLInner
 import PyttbModel.Ops.SptenmatOps
 set_option linter.unusedSimpArgs false
 set_option linter.unusedVariables false
@@ -802,6 +803,11 @@ theorem toSparse_perm (M M' : Sptenmat α) (hs : SameUpToOrder M' M) : Reorder M
   · show ((M'.subs.map _).zip M'.vals).Perm ((M.subs.map _).zip M.vals)
     rw [zip_map_left', zip_map_left']
     exact hs.2.2.2.2.2.map _
+
+/-- the square of `norm()` is the sum of the squares of the cells of the matrix. -/
+theorem normSq_spec [CommSemiring α] [DecidableEq α] (M : Sptenmat α) (hM : M.mat.WF) :
+    M.normSq = ((allSubs M.mshape).map fun k => M.mat.get k * M.mat.get k).sum :=
+  ML.sparse_normSq_spec M.mat hM
 
 end Sptenmat
 end Pyttb
